@@ -8,7 +8,7 @@ from common import Driver, DriverFailure, hx
 LEVEL = "proof"
 MANIFEST = dict(
     text="Lean 4 theorems over ALL field values (Python ints as Int, arbitrary byte strings and lists), stated about the definitions regenerated from the source on every run. (1) a constructor returns exactly for the in-range values, everything else raises (inRange_iff_encodes, encode_rejects). (2) for every one of the 24 packet message forms the content the constructor produces is decoded, by every handler class meant for it, to exactly the fields it was built from (roundtrip: generic struct pack/unpack inversion over the format strings read from the source; statp_roundtrip; reminders_roundtrip with signed days; setwc_roundtrip; files_roundtrip for every shipped platform name and EVERY pair of version numbers). (3) hello round trip for every spa name incl. names containing '|' (hello_roundtrip) and the broadcast / client forms. (4) the one regex of _extract_packet_parts is modelled as a backtracking matcher (leftmost start, greedy/lazy groups read from the source): framing round-trips for ARBITRARY payload bytes and all '<'-free identifier pairs (frame_roundtrip), replies are addressed back with source and destination swapped (reply_swaps), sender-to-receiver composition for every form (wire_roundtrip). (5) the content of EVERY message the library builds is accepted by exactly the handler class(es) of its verb among the standard classes, each datagram by exactly the hello / packet handler, verbs pairwise prefix-free, no orphan verbs (claimed_by_exactly, orphan_none, datagram_claimed, verbs_prefix_free). (6) the model reproduces all 83 byte vectors of tests/test_protocol.py (pinned_encode / pinned_decode / pinned_claims, re-extracted every run). What the code did before the fixes of D2/D3/D4 is kept as theorems about the explicit old parameters (hello_name_with_bar_fails, frame_roundtrip_fails, frame_roundtrip_greedy, hello_roundtrip_split, old_watercare_claims_miss_setwc_wcreq); the search tries those inputs first on every run."
-         " Since session 3: every search message is also decoded on ONE long-lived instance per handler class in the roles where the library keeps an instance alive (hello, async partial update, the simulator's request handlers) and must give the fields it was built from; hello_history_independent proves it for the hello handler over the generated reset list (Model/HelloObject.lean). Session 4: a long-lived partial-update handler acknowledges two packets from one address that carry different identifier pairs: each acknowledgement must be addressed from the packet it answers. State inventory of the decoders (decoder_state_inventory over the regenerated skeletons of the packet, status-block and hello handlers). Every framed message also travels through the connection`s own receive path (real datagram_received, real packet consumer, real _async_on_packet) and must reach the verb consumers byte for byte. Round 14: the simulator's fan-out of one change to several pinged clients - every datagram, rendered when taken off the send queue, carries its own client's identifiers.",
+         " Since session 3: every search message is also decoded on ONE long-lived instance per handler class in the roles where the library keeps an instance alive (hello, async partial update, the simulator's request handlers) and must give the fields it was built from; hello_history_independent proves it for the hello handler over the generated reset list (Model/HelloObject.lean). Session 4: a long-lived partial-update handler acknowledges two packets from one address that carry different identifier pairs: each acknowledgement must be addressed from the packet it answers. State inventory of the decoders (decoder_state_inventory over the regenerated skeletons of the packet, status-block and hello handlers). Every framed message also travels through the connection`s own receive path (real datagram_received, real packet consumer, real _async_on_packet) and must reach the verb consumers byte for byte. Round 14: the simulator's fan-out of one change to several pinged clients - every datagram, rendered when taken off the send queue, carries its own client's identifiers. Round 15: the simulator's ping answers are rendered after all clients have pinged and each must carry its own client's identifiers; every run of up to three (thorough: four) framing tags as the content of a packet, through the awaitable receive path and the blocking packet handler.",
     note="Trusted: Lean kernel; harness/gen_c04.py (verbs, tags, struct formats per call site, can_handle verb lists, regex literals + greediness, hello split arity, literal payloads, platform names, test vectors: read from the source by ast; shapes outside the expected ones are refused); the hand-written slices / branch order / exception kinds of Model/Wire.lean and the backtracking reading of Python's re are tied to the code by a differential correspondence (real constructors' send_bytes, real handle(), every can_handle of every class, the real regex on an adversarial delimiter corpus, a malformed stream). latin-1 = identity on 0..255 is exercised, not proved. Layout oracle = the repository's own captured test vectors. int() inputs with signs/underscores/whitespace are out of model (skipped, counted). Identifiers are assumed free of '<'; STATP lists of the shape the 4-byte-record decoder reads; reminder types in GeckoReminderType; client identifiers start with IOS/AND.",
     technique="Lean 4 proofs by cases over an inductive message type + generic struct inversion + explicit backtracking-regex model; source-translated formats/verbs/regex shape; differential correspondence; encoder-decoder composition search on the real code",
     design="5/C04",
@@ -1090,6 +1090,46 @@ def correspondence(ctx, n):
             ctx.sample({"op": lines[i][:200], "impl": impl[i][:200]})
 
 
+FRAMING_TAGS = [b"<SRCCN>", b"</SRCCN>", b"<DESCN>", b"</DESCN>", b"<DATAS>", b"</DATAS>", b"<PACKT>", b"</PACKT>"]
+
+
+def markup_payload_case(combo, p2=b"IOSabc", p3=b"SPA01:02"):
+    """content that holds the protocol's own framing tags, framed by the encoder's layout: what the consumers of the awaitable
+    connection find in the queue, and what the blocking packet handler unwraps"""
+    from geckolib.driver import GeckoPacketProtocolHandler
+    pay = b"STATV\x00\x01\x20" + b"".join(FRAMING_TAGS[i] for i in combo) + b"z"
+    dg = b"<PACKT><SRCCN>" + p3 + b"</SRCCN><DESCN>" + p2 + b"</DESCN><DATAS>" + pay + b"</DATAS></PACKT>"
+    try:
+        got = receive_path(dg, p2, p3)
+    except Exception as e:  # noqa
+        got = f"raised {type(e).__name__}: {e}"
+    try:
+        h = GeckoPacketProtocolHandler()
+        ok = h.can_handle(dg, ("10.0.0.1", 10022))
+        h.handle(dg, ("10.0.0.1", 10022))
+        sync = h.packet_content if ok else None
+    except Exception as e:  # noqa
+        sync = f"raised {type(e).__name__}: {e}"
+    return pay, got, sync
+
+
+def search_markup_payloads(ctx, only=None):
+    """every run of up to three (thorough: four) framing tags as the content of a packet: delivered whole, once"""
+    for k in (1, 2, 3) if ctx.quick else (1, 2, 3, 4):
+        for combo in itertools.product(range(len(FRAMING_TAGS)), repeat=k):
+            if only is not None and list(combo) != only:
+                continue
+            pay, got, sync = markup_payload_case(combo)
+            ctx.count("evaluations")
+            ctx.hist("markup_payloads", f"{k} tags")
+            if got != [pay] or sync != pay:
+                ctx.violation("markup-payload:not-delivered-whole", {"kind": "markup-payload", "tags": list(combo)},
+                              {"content": pay.decode("latin1")},
+                              {"queued for the consumers": [x.decode("latin1") if isinstance(x, bytes) else str(x) for x in got] if isinstance(got, list) else got,
+                               "blocking handler unwraps": sync.decode("latin1") if isinstance(sync, bytes) else str(sync)})
+                return
+
+
 def search_simulator_fanout(ctx):
     """"a message built from a received packet is addressed back with the sender's identifiers swapped", for the one message the
     simulator builds for SEVERAL senders at once: every client that has pinged is told about a change of the block. The datagrams
@@ -1108,7 +1148,8 @@ def search_simulator_fanout(ctx):
         for c in clients:
             ping = GeckoPingProtocolHandler.request(parms=(c[0], c[1], c[2], c[3]))     # a client frames SRCCN = its own id (parms[3]), DESCN = the spa (parms[2])
             sim._socket.dispatch_recevied_data(ping.send_bytes, (c[0], c[1]))
-        sim._socket._send_handlers.clear()                      # the ping answers
+        ping_answers = list(sim._socket._send_handlers)          # the ping answers: still queued while the next client's ping is dispatched
+        sim._socket._send_handlers.clear()
         acc = next(a for a in sim.structure.accessors.values() if a.read_write is not None and a.type == "Enum" and a.items and len(a.items) > 1)
         sim._send_structure_change = True
         try:
@@ -1120,6 +1161,20 @@ def search_simulator_fanout(ctx):
     finally:
         builtins.print = real_print
     rendered = [(h.send_bytes, dest) for (h, dest) in queued]     # rendered AFTER all were queued, as the engine does
+    seen_p = {}
+    for h, dest in ping_answers:
+        u = GeckoPacketProtocolHandler()
+        try:
+            u.handle(h.send_bytes, (dest[0], dest[1]))
+            seen_p[(dest[0], dest[1])] = (u.parms[2], u.parms[3], u.packet_content[:5])
+        except Exception as e:  # noqa
+            seen_p[(dest[0], dest[1])] = f"{type(e).__name__}: {e}"
+    want_p = {(c[0], c[1]): (spa_id, c[3], b"APING") for c in clients}
+    ctx.count("evaluations", len(ping_answers))
+    if seen_p != want_p:
+        ctx.violation("simulator-fanout:ping-answers", {"kind": "simulator-fanout", "clients": [[c[0], c[1], c[3].decode()] for c in clients]},
+                      {f"{k[0]}:{k[1]}": [x.decode("latin1") if isinstance(x, bytes) else x for x in v] for k, v in want_p.items()},
+                      {f"{k[0]}:{k[1]}": ([x.decode("latin1") if isinstance(x, bytes) else x for x in v] if isinstance(v, tuple) else v) for k, v in seen_p.items()})
     ctx.count("evaluations", len(rendered))
     ctx.cov["simulator_fanout_datagrams"] = len(rendered)
     seen = {}
@@ -1155,6 +1210,7 @@ def run(ctx):
         correspondence(ctx, n_corr)
     seen = search(ctx, n_search)
     search_layout(ctx)
+    search_markup_payloads(ctx)
     try:
         search_simulator_fanout(ctx)
     except Exception as e:  # noqa
@@ -1184,6 +1240,11 @@ def run(ctx):
 
 
 def replay(inp):
+    if inp.get("kind") == "markup-payload":
+        from common import Ctx
+        c = Ctx("C04", "quick", 0)
+        search_markup_payloads(c, only=inp["tags"])
+        return bool(c.violations), c.violations[0]["observed"] if c.violations else "delivered whole"
     if inp.get("kind") == "simulator-fanout":
         from common import Ctx
         c = Ctx("C04", "quick", 0)
